@@ -1,18 +1,34 @@
 #!/bin/bash
-export VERIF_EVIDENCE_DIR=${VERIF_EVIDENCE_DIR:-/verif/replays/evidence-changed-tree}
-# tools/seeded_matrix.sh [id ...] : apply each seeded change to /repo, run the checks listed in its meta.json, undo it.
-# One line per (change, check); feed the log to tools/gen_seeded_readme.py.  /repo must be clean; it is restored after every change.
-cd /verif
+# tools/seeded_matrix.sh [-j lanes] [id ...] : run the checks named in each seeded/<id>/meta.json against that change.
+# Each lane works in its own scratch worktree of /repo's HEAD under /tmp (removed afterwards): /repo itself is never touched,
+# and evidence of these changed-tree runs goes to replays/ (VERIF_EVIDENCE_DIR), never to evidence/.
+# One line per (change, check); feed the log to tools/gen_seeded_readme.py.  Runs from the directory it lives in (so it
+# can be started with `vp run -- tools/seeded_matrix.sh` on a snapshot of the committed /verif).
+DIR="$(cd "$(dirname "$0")/.." && pwd)"; cd "$DIR"
+LANES=3
+if [ "$1" = "-j" ]; then LANES=$2; shift 2; fi
 ids="$@"; [ -z "$ids" ] && ids=$(ls seeded | grep -v README)
-for id in $ids; do
-  d=/verif/seeded/$id
-  [ -f $d/patch.diff ] || continue
-  git -C /repo diff --quiet || { echo "/repo dirty"; exit 9; }
-  git -C /repo apply $d/patch.diff || { echo "$id apply-failed"; continue; }
-  for c in $(python3 -c "import json;print(' '.join(json.load(open('$d/meta.json'))['checks']))"); do
-    out=$(./check $c --tier quick 2>&1); rc=$?
-    nat=$(echo "$out" | grep -c "native failing input"); ref=$(echo "$out" | grep -c "verdict=refuted"); nfi=$(echo "$out" | grep -c "no-failing-input-found"); und=$(echo "$out" | grep -c "^UNDECIDED")
-    echo "$id check=$c rc=$rc native=$nat refuted=$ref nofail=$nfi undecided=$und | $(echo "$out" | grep -m1 '^VIOLATION' | cut -c1-150)"
+export VERIF_EVIDENCE_DIR="$DIR/replays/evidence-changed-tree"
+HEAD=$(git -C /repo rev-parse HEAD)
+lane() {
+  n=$1; shift
+  wt=/tmp/mx_$$_$n
+  git -C /repo worktree add -q --detach $wt $HEAD || { echo "lane $n: worktree failed"; return; }
+  for id in "$@"; do
+    d=$DIR/seeded/$id
+    [ -f $d/patch.diff ] || continue
+    git -C $wt apply $d/patch.diff || { echo "$id apply-failed"; continue; }
+    for c in $(python3 -c "import json;print(' '.join(json.load(open('$d/meta.json'))['checks']))"); do
+      out=$(VERIF_REPO=$wt ./check $c --tier quick 2>&1); rc=$?
+      nat=$(echo "$out" | grep -c "native failing input"); ref=$(echo "$out" | grep -c "verdict=refuted"); nfi=$(echo "$out" | grep -c "no-failing-input-found"); und=$(echo "$out" | grep -c "^UNDECIDED")
+      echo "$id check=$c rc=$rc native=$nat refuted=$ref nofail=$nfi undecided=$und | $(echo "$out" | grep -m1 '^VIOLATION' | cut -c1-150)"
+    done
+    git -C $wt checkout -q -- . ; git -C $wt clean -fdq
   done
-  git -C /repo checkout -- .
-done
+  git -C /repo worktree remove --force $wt
+}
+i=0; declare -a buckets
+for id in $ids; do buckets[$((i % LANES))]+="$id "; i=$((i+1)); done
+for n in $(seq 0 $((LANES-1))); do lane $n ${buckets[$n]} & done
+wait
+git -C /repo worktree prune
